@@ -43,7 +43,10 @@ def drive(arg):
         if len(seed_bytes) > 3000 and not thorough:
             continue
         other = rng.choice(frs) if frs else rng.choice(_ALLSEEDS)
-        suffixes = (b'\x00', bytes(rng.randrange(256) for _ in range(5)), seed_bytes, other) if unit else ()
+        # ... and a long one: what follows a frame in the buffer may be much longer than the frame (limits that are meant for
+        # the frame must not be applied to the buffer)
+        suffixes = (b'\x00', bytes(rng.randrange(256) for _ in range(5)), seed_bytes, other,
+                    bytes(rng.randrange(1, 256) for _ in range(700))) if unit else ()
         inputs = [seed_bytes] + mutants(seed_bytes, rng, per_seed, others=[other])
         for data in inputs:
             ev, _ = api.observe(cls, data, unit=unit, positive=bool(unit), suffixes=suffixes)
@@ -92,7 +95,7 @@ def run(rep):
     rep.rule = ('one case = one (class, buffer): accepted corpus inputs of every class, the frames of every framing unit, '
                 'and mutants of each (truncations, trailing bytes, header-byte and length-field corruption, random byte '
                 'edits, splices); all three entry points are called on each buffer and, for framing units, the consumed '
-                'prefix is re-parsed alone and with four different suffixes. Distinct by (class, buffer).')
+                'prefix is re-parsed alone and with five different suffixes (one of 700 bytes). Distinct by (class, buffer).')
     from . import c03_engine
     c03_engine.run_engine(rep, thorough)
     c03_engine.run_dispatch(rep, thorough)
